@@ -18,7 +18,7 @@ func init() {
 		explain: "Decided on source constants and the SSA program: (P14-lang) the tag pattern is language-equivalent to the specification's tag syntax #name[=value] with name/unquoted value over letters, digits, _ and -, and values quoted by matching \" or ' on one line; the unquoted-value pattern equals [\\p{L}\\d_-]+; " +
 			"(P14-lower) the stored tag name is lower-cased and the value is not; (P14-barename) Put also registers the bare name and Contains is a lookup of the very tag; (P14-merge / P14-once) per entry the tag set is Merge(record tags, entry tags), the aggregation iterates the keys of that set and adds the entry's duration once per key; Summary.Tags folds over all matches of all summary lines; tag filters test set membership of every queried tag. " +
 			"Not covered: quote stripping of values, klog tags rendering, --tag decoding beyond NewTagFromString, leftmost-first alternation effects of the pattern.",
-		rules:   []ruleFn{ruleP14Lang, ruleP14Unquote, ruleP14Model, ruleP14Aggregate, ruleP14SortKey, ruleP13Reduce},
+		rules:   []ruleFn{ruleP14Lang, ruleP14Unquote, ruleP14Model, ruleP14Aggregate, ruleP14SortKey, ruleP14AggKey, ruleP13Reduce},
 		trusted: []string{"reference language for tags transcribed from Specification.md: #[\\p{L}\\d_-]+(=(\"[^\"]*\"|'[^']*'|[\\p{L}\\d_-]*))?"},
 	})
 	register(&propSpec{
@@ -28,7 +28,7 @@ func init() {
 			"(P20-fields) every field of the record/entry views is computed from the accessor the format documents (date, summary, total_mins = Total(r), should_total_mins, diff_mins = Diff(should,total), entry total = e.Duration(), start/end notation and midnight offsets, type constant per entry kind, tags of the matching summary), one view per record/entry in order; " +
 			"(P20-run) a parser-errors failure prints one error document and exits 0, any other failure is returned, success applies --now, filter and sort and prints one document; every path that returns nil has printed exactly one document; (P20-errfields = P10-accessors) error objects carry the terminal report's line/column/length/message; (P20-encode) the string returned is the encoder's buffer after one Encode of the envelope. " +
 			"Not covered: JSON well-formedness and escaping (delegated to encoding/json), numeric relations as numbers.",
-		rules:   []ruleFn{ruleP20Xor, ruleP20Fields, ruleP20Tags, ruleP20Run, ruleP10Accessors},
+		rules:   []ruleFn{ruleP20Xor, ruleP20Fields, ruleP20Tags, ruleP20Run, ruleP20OnlyJson, ruleP20NoEdit, ruleP10Accessors},
 		trusted: []string{"encoding/json emits one well-formed document per Encode call"},
 	})
 }
